@@ -50,6 +50,14 @@ def canon(tree):
             g = ast.GeneratorExp(elt=n.args[0].elt, generators=n.args[0].generators)
             ast.copy_location(g, n.args[0])
             n.args[0] = g
+        # frozenset(d.keys()) and frozenset(d) hold the same elements
+        if isinstance(n, ast.Call) and isinstance(n.func, ast.Name) \
+                and n.func.id in ("frozenset", "set", "tuple", "list", "sorted") \
+                and len(n.args) == 1 and not n.keywords \
+                and isinstance(n.args[0], ast.Call) and not n.args[0].args \
+                and not n.args[0].keywords and isinstance(n.args[0].func, ast.Attribute) \
+                and n.args[0].func.attr == "keys":
+            n.args[0] = n.args[0].func.value
         # a literal compared with == / != / is stands on the right
         if isinstance(n, ast.Compare) and len(n.ops) == 1 and isinstance(
                 n.ops[0], (ast.Eq, ast.NotEq, ast.Is, ast.IsNot)) \
